@@ -1,7 +1,7 @@
 (* C14 — correspondence cases: the implementation's observation is part of each case; check_corr compares it with
    the model (and with the translated kernel), check_spec evaluates the property's own specification on it. *)
 From Coq Require Import ZArith QArith Qround Bool List.
-Require Import QV.common.Util QV.common.Ctl QV.C14.Gen_numeric QV.C14.Model.
+Require Import QV.common.Util QV.common.Ctl QV.C14.Gen_numeric QV.C14.Gen_rational QV.C14.Model QV.C14.Dispatch QV.C14.HashModel QV.C14.Float64.
 Import ListNotations.
 
 Inductive case :=
@@ -12,6 +12,12 @@ Inductive case :=
 | CUn (op : unop) (t : Q) (impl : Q)
 | CFromFloat (exact dec : Q) (neg : bool) (mant exp : Z) (mode : ff_mode) (impl : outcome Q) (float_back_equal : bool)
 | CHash (t : Q) (other : operand) (eq_impl hash_eq_impl : bool)
+| CDisp (op : binop) (t : Q) (v : pyval) (swap : bool) (impl : bres)
+    (* operand of any Python type through _with_other_as_time_type / _converter / _try_from_any *)
+| CHashVal (q : Q) (h_time h_mpq h_frac : Z) (h_int : option Z) (h_float : option (Z * Z * Z))
+    (* hash(TimeType(q)), hash(mpq(q)), hash(Fraction(q)); hash(int(q)) if q is integral; (m, e, hash(float)) if q = m*2^e is a double *)
+| CFloatRT (m e : Z) (num den : Z) (back : bool)
+    (* x = m*2^e (canonical binary64), num/den = TimeType.from_float(x), back = (float(TimeType.from_float(x)) == x) *)
 | CCrash.   (* the implementation crashed with an unexpected exception or did not return *)
 
 Definition zz_eqb (a b : Z * Z) : bool := (fst a =? fst b)%Z && (snd a =? snd b)%Z.
@@ -23,17 +29,33 @@ Definition outcome_eqb {R} (e : R -> R -> bool) (a b : outcome R) : bool :=
   | _, _ => false
   end.
 
+Definition bres_eqb (a b : bres) : bool :=
+  match a, b with
+  | BVal x, BVal y => Qeq_bool x y
+  | BZeroDiv, BZeroDiv | BTypeError, BTypeError | BRaise, BRaise | BAttrError, BAttrError | BReflected, BReflected => true
+  | _, _ => false
+  end.
+
 Definition check_corr (c : case) : bool :=
   match c with
   | CApproxInt a d den impl =>
       outcome_eqb zz_eqb (approx_int_p a d den) impl
       && outcome_eqb zz_eqb (out_of (gen_approximate_int (Z.to_nat (Z.min den 3000)) a d den)) impl
-  | CApproxRat xp xq dp dq impl => outcome_eqb zz_eqb (approximate_rational xp xq dp dq) impl
+  | CApproxRat xp xq dp dq impl =>
+      outcome_eqb zz_eqb (approximate_rational xp xq dp dq) impl
+      && outcome_eqb zz_eqb (out_of (gen_approximate_rational 3000 xp xq dp dq)) impl    (* the translated code itself *)
   | CBin op t o swap impl => opt_eqb Qeq_bool (time_binop op t o swap) impl
   | CCmp op t o swap impl => Bool.eqb (time_cmp op t o swap) impl
   | CUn op t impl => Qeq_bool (unop_eval op t) impl
   | CFromFloat e d _ _ _ m impl _ => outcome_eqb Qeq_bool (from_float e d m) impl
   | CHash _ _ _ _ => true
+  | CDisp op t v swap impl => bres_eqb (wrapped_binop op t v swap) impl
+  | CHashVal q ht hm hf hi hfl =>
+      (pyhash_Q q =? ht)%Z && (pyhash_Q q =? hm)%Z && (pyhash_Q q =? hf)%Z
+      && match hi with Some h => Q_is_integer q && (pyhash_int (Qnum (Qred q)) =? h)%Z | None => true end
+      && match hfl with Some (m, e, h) => Qeq_bool (dyadic m e) q && (pyhash_float m e =? h)%Z | None => true end
+  | CFloatRT m e num den back =>
+      canonical64 m e && match den with Zpos d => Bool.eqb (rounds_to m e (num # d)) back | _ => false end
   | CCrash => false
   end.
 
@@ -94,5 +116,24 @@ Definition check_spec (c : case) : bool :=
                end
       end
   | CHash _ _ eq_impl hash_eq_impl => implb eq_impl hash_eq_impl
+  | CDisp op t v swap impl =>
+      (* an operand the property speaks about counts with its documented value (exact, or shortest decimal of float(x)) *)
+      match documented_value v with
+      | Some q => match (if swap then binop_eval op q t else binop_eval op t q), impl with
+                  | Some r, BVal r' => Qeq_bool r r'
+                  | None, BZeroDiv => true
+                  | _, _ => false
+                  end
+      | None => true
+      end
+  | CHashVal q ht hm hf hi hfl =>
+      (* equal values hash equally across TimeType / mpq / Fraction / int / float *)
+      (hm =? ht)%Z && (hf =? ht)%Z
+      && match hi with Some h => (h =? ht)%Z | None => true end
+      && match hfl with Some (_, _, h) => (h =? ht)%Z | None => true end
+  | CFloatRT m e num den back =>
+      (* the converted value lies in the rounding interval of x (so correctly rounded division returns x), and the
+         implementation's float() does return x *)
+      canonical64 m e && back && match den with Zpos d => rounds_to m e (num # d) | _ => false end
   | CCrash => false
   end.
